@@ -194,6 +194,10 @@ func ItemCollectionDeduplication(recCols ...*ItemCollection) ItemCollection {
 // Collection and CollectionPage.
 // It also converts an IRI slice into an equivalent ItemCollection.
 func ToItemCollection(it Item) (*ItemCollection, error) {
+	if IsObject(it) && IsNil(it) {
+		// NOTE(marius): a nil collection has no items to point to
+		return nil, nil
+	}
 	switch i := it.(type) {
 	case *ItemCollection:
 		return i, nil
